@@ -18,7 +18,9 @@ RULE = ("seeded histories of <= 60 steps over 3-4 owner-side objects (list / dic
         "need no nested INSPECT) under held delivery, plus a systematically enumerated family in which a release notice "
         "crosses a fresh reference in flight in both delivery orders. distinct = (step sequence incl. delivery choices); "
         "non-trivial = the history contains at least one drop while a message is in flight the other way")
-ASSUMPTIONS = ["single driver thread: the quantifier is over delivery orders, not over thread races inside one peer",
+ASSUMPTIONS = ["histories: single driver thread, the quantifier is over delivery orders; thread races inside the owner are explored by the "
+               "separate owner-threads runs (2-3 threads serving the owner's side under the controlled scheduler, pre-emption inside "
+               "RefCountingColl.add/decref/__getitem__ and Connection._box, release notice and re-lending request sent back to back)",
                "quiescence = no bytes in flight, no unread bytes, every issued request answered",
                "the harness keeps proxies only in explicit containers and verifies with weak references that it holds nothing else"]
 SHARDS = {"quick": 1, "thorough": 16}
@@ -374,6 +376,126 @@ def run_history(ctx, rng, idx, script=None):
     return steps
 
 
+def owner_threads_run(ctx, seed, policy, p_switch, del_first, nthreads):
+    """several threads serve the OWNER's side (serve_threaded style) under the controlled scheduler, with pre-emption inside the
+    table of lent objects: one thread lends the object again (the reply of give()) while another processes the notice by which
+    the peer releases its so far only proxy. Whatever the interleaving, the object must still be referenced by the owner's
+    connection while the peer holds the fresh proxy, and must be released once that one is dropped too."""
+    import rpyc
+    from rpyc.core.channel import Channel
+    from rpyc.core.protocol import Connection
+    from rpyc.lib.colls import RefCountingColl
+    from rpyc.lib import get_id_pack
+    from rv import vsched
+    shared = ["the lent list"]
+
+    class Owner(rpyc.Service):
+        def exposed_give(self):
+            return shared
+    sched = vsched.Sched(seed=seed, policy=policy, p_switch=p_switch, max_steps=150000)
+    net = vnet.Net(waiter=vsched.SchedWaiter(sched))
+    b = Owner()._connect(Channel(net.b), {"sync_request_timeout": 30})
+    a = rpyc.VoidService()._connect(Channel(net.a), {"sync_request_timeout": 30})
+    vsched.simulate_connection(a, sched, "A")
+    vsched.simulate_connection(b, sched, "B", tables=True)
+    key = get_id_pack(shared)
+    state = dict(done=False, releases=0, phase=None)
+    out = {}
+    table = b._local_objects
+    orig_decref = RefCountingColl.decref
+
+    def counted_decref(self, k, count=1):
+        try:
+            return orig_decref(self, k, count)
+        finally:
+            if self is table and k == key:
+                state["releases"] += 1
+
+    def server():
+        try:
+            while not state["done"] and not b.closed:
+                b.serve(0.5)
+        except EOFError:
+            pass
+
+    def client():
+        try:
+            give = a.root.give
+            p = give()
+            agive = rpyc.async_(give)
+            if del_first:
+                del p                    # the release notice leaves first, the request that lends the object again right behind it
+                ar = agive()
+            else:
+                ar = agive()
+                del p
+            ar.set_expiry(30)
+            try:
+                p2 = ar.value
+            except Exception as e:
+                out["second_lend_failed"] = "%s: %s" % (type(e).__name__, str(e)[:120])
+                return
+            sched.block(lambda: state["releases"] >= 1, 30, ("wait-release-1",))
+            out["after_first_release"] = (state["releases"], key in table._dict)
+            try:
+                out["use"] = list(p2)
+            except Exception as e:
+                out["use"] = "%s: %s" % (type(e).__name__, str(e)[:120])
+            del p2, ar
+            sched.block(lambda: state["releases"] >= 2, 30, ("wait-release-2",))
+            out["after_second_release"] = (state["releases"], key in table._dict)
+        finally:
+            state["done"] = True
+    codes = sched.instrument([RefCountingColl.add.__code__, orig_decref.__code__, RefCountingColl.__getitem__.__code__,
+                              Connection._box.__code__])
+    RefCountingColl.decref = counted_decref
+    try:
+        with vsched.patched_time(sched, spawn=False):
+            sched.spawn(client, name="client")
+            for k in range(nthreads):
+                sched.spawn(server, name="srv%d" % k)
+            ok = sched.run(watchdog=40)
+    finally:
+        vsched.Sched.uninstrument(codes)
+        RefCountingColl.decref = orig_decref
+    ctx.case(("owner-threads", del_first, nthreads, sched.trace_hash()), nontrivial=sched.preemptions > 0)
+    ctx.count("owner_thread_runs")
+    wit = dict(mode="owner-threads", seed=list(seed), policy=policy, p_switch=p_switch, del_first=del_first, nthreads=nthreads)
+    try:
+        if not ok:
+            ctx.inconclusive("wall-clock watchdog in an owner-threads run")
+            return
+        if sched.deadlock or sched.aborting:
+            ctx.violation("C10/owner-threads/stuck", "run did not complete: %r" % (sched.deadlock or sched.abort_reason,), wit)
+            return
+        for t in sched.tasks:
+            if t.exc is not None:
+                ctx.violation("C10/owner-threads/task-raised/%s" % type(t.exc).__name__, "task %s raised %r" % (t.name, t.exc), wit)
+        if "second_lend_failed" in out:
+            ctx.violation("C10/owner-threads/second-lend-failed", "receiving the object again failed: %s" % out["second_lend_failed"], wit)
+            return
+        rel, present = out.get("after_first_release", (0, None))
+        if rel >= 1 and present is False:
+            ctx.violation("C10/owner-threads/premature-release", "the peer holds a live proxy (received while its first one was being released) "
+                          "but the owner's connection no longer references the object", wit)
+        elif rel >= 1:
+            ctx.count("owner_thread_runs_judged_while_held")
+        if out.get("use") != list(shared) and "use" in out:
+            ctx.violation("C10/owner-threads/use-failed", "using the fresh proxy gave %r" % (out["use"],), wit)
+        rel2, present2 = out.get("after_second_release", (0, None))
+        if rel2 >= 2 and present2:
+            ctx.violation("C10/owner-threads/leak", "the peer released every proxy, the owner's connection still references the object", wit)
+        elif rel2 >= 2:
+            ctx.count("owner_thread_runs_judged_after_release")
+    finally:
+        state["done"] = True
+        for c in (a, b):
+            try:
+                c.close()
+            except BaseException:
+                pass
+
+
 def crossing_family():
     """a release notice crosses a fresh reference in flight: every small variant, both delivery orders"""
     out = []
@@ -412,6 +534,12 @@ def run(ctx):
             if ctx.enough():
                 return
         ctx.count("systematic_crossing_scripts", len(fam))
+    for i in range(ctx.budget(300, 60000)):
+        owner_threads_run(ctx, (ctx.seed, ctx.shard[0], i), "random" if i % 3 else "pct", rng.choice([0.1, 0.3, 0.6]), bool(i % 2), rng.choice([2, 2, 3]))
+        if ctx.enough():
+            return
+    if not ctx.counters["owner_thread_runs_judged_while_held"]:
+        ctx.inconclusive("no owner-threads run reached the point where the peer holds the fresh proxy after the first release")
     for i in range(ctx.budget(1500, 2000000)):
         steps = run_history(ctx, rng, i)
         if i < 2:
@@ -423,6 +551,10 @@ def run(ctx):
 
 
 def replay(ctx, wit):
+    w = wit.get("witness", wit)
+    if isinstance(w, dict) and w.get("mode") == "owner-threads":
+        owner_threads_run(ctx, tuple(w["seed"]), w["policy"], w["p_switch"], w["del_first"], w["nthreads"])
+        return
     import random
     steps = [tuple(s) for s in wit["witness"]["steps"]]
     run_history(ctx, random.Random(0), 0, steps)
